@@ -242,6 +242,10 @@ def c05(res, v):
                 viol(res, v, 'an event was delivered for a session after its disconnect event', 'none-after-disconnect', session=s, later=later[:3])
             reason = [d for _, k, d in evs if k == 'disconnect'][0]
             allowed = allowed_reasons(r, dstep, s)
+            if allowed is not None and reason == 'transport close' and any(op2[0] == 'wsclose' and _sess(r.conn_sess.get(op2[1])) == s for op2 in r.log[:dstep + 1]):
+                # the client closed the session's WebSocket in an earlier step: the server may notice later (when a pending long poll took the
+                # end marker meant for the writer, the handler sits in writer.join() until the next packet is queued); the reason still names that cause
+                allowed = set(allowed) | {'transport close'}
             if allowed is not None and reason not in allowed:
                 viol(res, v, 'the disconnect reason does not name the cause that ended the session', 'reason', session=s, reason=reason, allowed=sorted(allowed), op=r.log[dstep])
         po = r.post[-1].get(s) if r.post else None
